@@ -49,6 +49,14 @@ CHECKS = {
    text="S4Run.tla with faulty script shapes (FileInfo error, mid-stream error) for 1..2 of N<=3 sources is checked by TLC for isolation of the healthy sources, termination and the meaning of the exit status. Crash-freedom is decided by executing enumerated faults on the real binary: valid base files of every kind and container (text plain/gz/bz2/xz/lz4/tar, utmp, lastlog, acct, NetBSD utmpx, FreeBSD utx, evtx, journal and compressed forms) are truncated at stratified/every position, corrupted by single and multi-byte changes per offset class (with the leading fields of the first records always included), replaced by random/zero strings of assorted lengths, and presented under every mismatching name, alone and next to 1..3 valid sources; exit status in {0,1}, no panic/abort/signal, wall-clock bound, valid sources' lines all printed in order, no temp file left.",
    note="The model decides isolation/termination; crash-freedom is by execution over the enumerated faults only. Valid neighbours are text logs with attributable lines.",
    technique="TLA+ model checking of fault shapes + fault enumeration on the real binary"),
+ "C15": dict(engine="Walk", category="model_checking", design_ref="DESIGN.md §6 C15",
+   text="Walk.tla defines Expand(dir) (regular files beneath the root, one symbolic link to a file or directory followed, known non-log types dropped, component-wise sorted order) and the argv/stdin splice; TLC enumerates every tree up to MaxNodes nodes over ordered names and checks Expand is the sorted duplicate-free listing. Each tree is materialised (names with spaces and non-ASCII characters, log / compressed / non-log / empty-directory leaves) with equal-instant messages so that print order = PathId order, and `s4 DIR`, `s4 <Expand(DIR)>`, two random splits of the list between arguments and stdin, DIR on stdin, and all files named explicitly (non-log ones must then be attempted) are compared byte for byte with the expansion the specification prescribes; a .tar inside a walked directory must expand like the same .tar named explicitly.",
+   note="Depth <= 2, at most one symlink; name order = byte order of the chosen names.",
+   technique="TLA+ function module enumerated by TLC + materialised-tree replay on the real binary"),
+ "C16": dict(engine="Classify", category="model_checking", design_ref="DESIGN.md §6 C16",
+   text="Classify.tla (written from the documented rules) gives the reader and container of a name read from the right; TLC enumerates every name up to MaxC components over a vocabulary covering each class, checks the invariance lemmas (inserting numeric/unrecognised components after the stem, appending a compression suffix) and emits every name with its class; each is rendered in several spellings (case variants, junk prefixes/suffixes, class-preserving word substitution over the full word lists) and passed to the real path_to_filetype in both modes; arbitrary byte strings (dots only, empty stem, 4 KiB, non-UTF-8) must classify without panic or hang; renamed real files must produce the corresponding output end-to-end.",
+   note="Names with several compression suffixes and bare stems evtx/txt/tar/<compression>/<non-log>/<number> are outside the documented rules. Known finding leading-double-dot.",
+   technique="TLA+ function module enumerated by TLC + exhaustive replay on the real classifier"),
 }
 NA_REASON = "check not built yet in this session (work in progress; will be claimed when its machinery exists)"
 
@@ -77,6 +85,8 @@ manifest = {
            "add_only": True},
  "engines": [
    {"name": "TextLog", "path": "spec/TextLog.tla", "serves_properties": ["C02", "C12", "C03", "C17", "C11"], "kind_free_text": "TLA+ specification of lines/messages/reader API; BlockZero.tla transcribes the block-zero acceptance"},
+   {"name": "Walk", "path": "spec/Walk.tla", "serves_properties": ["C15"], "kind_free_text": "directory expansion order / filtering / stdin splice"},
+   {"name": "Classify", "path": "spec/Classify.tla", "serves_properties": ["C16"], "kind_free_text": "name -> reader/container"},
    {"name": "Stream", "path": "spec/Stream.tla", "serves_properties": ["C05"], "kind_free_text": "decoder chunk assembly / look-behind drop"},
    {"name": "Ordered", "path": "spec/Ordered.tla", "serves_properties": ["C08", "C09", "C10", "C03"], "kind_free_text": "collect / window / key-ordered emission for record files, evtx, journal"},
    {"name": "BinSearch", "path": "spec/BinSearch.tla", "serves_properties": ["C03"], "kind_free_text": "transcription of the datetime binary search + window walk; TraceBinSearch.tla validates Probe traces"},
